@@ -8,7 +8,7 @@
     values), every combination of options, every grace period and interval, every fault plan and
     cancellation point, every clock. [file s k] is the value of the terminal key k.
     [jt o clk s0 k] = deleting k is justified at one of the readings: exists i, justified o (clk i) s0 k. *)
-From CM Require Import Lib.Str Lib.CleanSyntax Gen.Consts Clean.Model Clean.Proofs Clean.Prog Clean.Check Clean.SpecProofs Clean.Concurrent Clean.Interfere Clean.Effective.
+From CM Require Import Lib.Str Lib.CleanSyntax Gen.Consts Clean.Model Clean.Proofs Clean.Prog Clean.Check Clean.SpecProofs Clean.Concurrent Clean.Interfere Clean.Effective Clean.EffectiveCerts Clean.Kill Clean.InterfereSeq Clean.ConcurrentKill Clean.ConcurrentForeign.
 From Coq Require Import String Ascii.
 Open Scope Z_scope.
 
@@ -270,6 +270,30 @@ Theorem C18_interference_live_assets_untouched : forall e clk fs o s0 base suf v
 Proof. exact cleani_live_frame. Qed.
 Print Assumptions C18_interference_live_assets_untouched.
 
+(** ** several actors at several instants, alongside several cleaners: a history is any number of cleanings (in the
+    order in which the cleaners hold the lock; each with its own options, clock, fault plan) with any operations of
+    other actors during each of them (at any of its calls, [ir_fs]) and between them ([ir_pre]). The two frame
+    theorems hold for every such history. *)
+Theorem C18_history_other_keys_untouched : forall k,
+  has_prefix ocsp_pfx k = false -> has_prefix certs_pfx k = false -> k <> spec_last_clean ->
+  forall runs s0,
+  (forall r, In r runs -> (forall i f, In (i, f) (ir_fs r) -> touches k f = false) /\
+                          (forall f, In f (ir_pre r) -> touches k f = false)) ->
+  lookup (cleani_seq runs s0) k = lookup s0 k.
+Proof. exact cleani_seq_frame. Qed.
+Print Assumptions C18_history_other_keys_untouched.
+
+Theorem C18_history_live_assets_untouched : forall base v c, site_assetb (base ++ spec_ext_crt) = true ->
+  forall runs s0, lookup s0 (base ++ spec_ext_crt) = Some (File v c) ->
+  (forall r, In r runs ->
+     (forall i, spec_expired (ir_clk r i) (grace (ir_opts r)) c = false) /\
+     (forall suf, In suf asset_exts ->
+        (forall i f, In (i, f) (ir_fs r) -> covers (fkey f) (base ++ spec_ext_crt) = false /\ covers (fkey f) (base ++ suf) = false) /\
+        (forall f, In f (ir_pre r) -> covers (fkey f) (base ++ spec_ext_crt) = false /\ covers (fkey f) (base ++ suf) = false))) ->
+  forall suf, In suf asset_exts -> lookup (cleani_seq runs s0) (base ++ suf) = lookup s0 (base ++ suf).
+Proof. exact cleani_seq_live. Qed.
+Print Assumptions C18_history_live_assets_untouched.
+
 (** without foreign operations the interfered cleaning is the model *)
 Theorem C18_no_interference_is_model : forall e o clk s0, cleani e [] o clk s0 = clean e o clk s0.
 Proof. exact cleani_nil. Qed.
@@ -303,6 +327,156 @@ Theorem C18_stale_staples_removed : forall e o clk s0 a v c,
   forall k, covers a k = true -> lookup (sto (snd (clean e o clk s0))) k = None.
 Proof. exact stale_staples_removed. Qed.
 Print Assumptions C18_stale_staples_removed.
+
+(** ** ... and the same for certificates: in a run with certificates on, no interval check, no storage fault and
+    no cancellation, on a storage in which every X.crt directly in a site folder is a parseable certificate
+    file ([crt_wf]; an unparseable one makes deleteExpiredCerts return at that point -- [ex_run_aborts_at_malformed])
+    and certificates/, the issuer folder and the site folder are not files: X.crt, X.key and X.json
+    ([trio]) of every certificate that is expired for the grace period at every reading of the clock are gone
+    afterwards, with everything below them *)
+Theorem C18_expired_cert_assets_removed : forall e o clk s0 ik sk a v c,
+  no_faults e -> do_certs o = true -> interval o <= 0 -> crt_wf s0 ->
+  notfile s0 spec_certs -> child spec_certs ik -> child ik sk -> notfile s0 ik -> notfile s0 sk ->
+  child sk a -> seqb (path_ext a) spec_ext_crt = true -> file s0 a = Some (v, c) ->
+  (forall i, spec_expired (clk i) (grace o) c = true) ->
+  forall x, In x [a; trim_suffix spec_ext_crt a ++ spec_ext_key; trim_suffix spec_ext_crt a ++ spec_ext_json] ->
+  forall k, covers x k = true -> lookup (sto (snd (clean e o clk s0))) k = None.
+Proof. exact expired_cert_assets_removed. Qed.
+Print Assumptions C18_expired_cert_assets_removed.
+
+(** ... and a site folder in which everything is (or lies under) X.crt, X.key or X.json of such certificates IS
+    removed: nothing is left at or below certificates/<issuer>/<site> (the emptied folder is deleted) *)
+Theorem C18_expired_site_folder_removed : forall e o clk s0 ik sk,
+  no_faults e -> do_certs o = true -> interval o <= 0 -> crt_wf s0 ->
+  notfile s0 spec_certs -> child spec_certs ik -> child ik sk -> notfile s0 ik -> notfile s0 sk ->
+  (forall k, under sk k = true -> lookup s0 k <> None ->
+     exists a v c x, child sk a /\ seqb (path_ext a) spec_ext_crt = true /\ lookup s0 a = Some (File v c) /\
+                     (forall i, spec_expired (clk i) (grace o) c = true) /\
+                     In x [a; trim_suffix spec_ext_crt a ++ spec_ext_key; trim_suffix spec_ext_crt a ++ spec_ext_json] /\
+                     covers x k = true) ->
+  forall k, covers sk k = true -> lookup (sto (snd (clean e o clk s0))) k = None.
+Proof. exact expired_site_folder_removed. Qed.
+Print Assumptions C18_expired_site_folder_removed.
+
+(** ** "expired longer ago than the grace period" in terms of the certificate's own NotAfter (an independent
+    reading of the X.509 field), not of the code's [expiresAt]: what the cleaner may delete ([spec_expired],
+    the clause of [justified]) is past its NotAfter by MORE than the grace period; and everything past it by
+    the grace period plus one second qualifies *)
+Theorem C18_expired_is_past_not_after : forall now gr c na, as_cert c = Some na ->
+  (spec_expired now gr c = true -> gr < now - na) /\
+  (gr + second <= now - na -> spec_expired now gr c = true).
+Proof.
+  intros now gr c na A. unfold spec_expired, expires_at. rewrite A.
+  assert (S : 0 < second) by reflexivity.
+  pose proof (Z.div_mod na second ltac:(lia)) as D. pose proof (Z.mod_pos_bound na second S) as B.
+  rewrite Z.leb_le. split; intros H; nia.
+Qed.
+Print Assumptions C18_expired_is_past_not_after.
+
+(** ** concurrent cleaners some of whom are killed, composed with the behaviour of the lock (Clean/ConcurrentKill.v): threads
+    step call by call on the shared storage; a thread's process may die at any moment ([LKill]: no further call; a holder
+    keeps the lock), and the lock of a DEAD holder expires ([LExpire]: FileStorage lock file stale after
+    2 x lockFreshnessInterval, removed by the next contender -- C08_stale_recovers; a live holder's lock does not expire --
+    C08_mutex_no_crash). EVERY schedule of calls, kills and expiries: a live cleaner is inside only while it holds the lock,
+    the holder is inside or dead, and whenever the lock is free the storage is the sequential composition of the cleanings
+    completed or cut short so far (a cleaning cut short at call n = the model under [with_kill e n]) *)
+Theorem C18_concurrent_kill_serializable : forall s0 thr0 sched, kinit_ok thr0 ->
+  let c := ksteps (KS s0 None thr0) sched in
+  exists done,
+    Forall (okrun thr0) done /\
+    (ks_holder c = None -> ks_store c = clean_seq done s0) /\
+    (forall t th p, ks_thr c t = Some th -> kt_ph th = KLocked p -> ks_holder c = Some t) /\
+    (forall t, ks_holder c = Some t -> exists th, ks_thr c t = Some th /\
+               ((exists p, kt_ph th = KLocked p) \/ kt_ph th = KDead)).
+Proof. exact concurrent_kill_serial. Qed.
+Print Assumptions C18_concurrent_kill_serializable.
+
+(** hence, whoever dies whenever: with the lock free (all finished, or the dead holders' locks expired), every key other
+    than last_clean.json has its initial value or is gone and justified for one of the cleaners *)
+Theorem C18_concurrent_kill_safe : forall s0 thr0 sched k, kinit_ok thr0 -> k <> spec_last_clean ->
+  let c := ksteps (KS s0 None thr0) sched in
+  ks_holder c = None ->
+  file (ks_store c) k = file s0 k \/
+  (file (ks_store c) k = None /\
+   exists t th0 i, thr0 t = Some th0 /\ justified (kt_opts th0) (kt_clk th0 i) s0 k = true).
+Proof. exact concurrent_kill_safe. Qed.
+Print Assumptions C18_concurrent_kill_safe.
+
+(** ** everything at once (Clean/ConcurrentForeign.v): any number of cleaners stepping call by call, kills, lock expiries
+    AND operations of other actors (no storage_clean lock) at any moment. No assumption on the schedule, none even on
+    the lock. A key outside ocsp/ and certificates/ other than last_clean.json that none of the other actors' operations
+    changes has, after ANY schedule, the node it had at the beginning ... *)
+Theorem C18_every_schedule_other_keys_untouched : forall s0 q,
+  has_prefix ocsp_pfx q = false -> has_prefix certs_pfx q = false -> q <> spec_last_clean ->
+  forall thr0 sched,
+  (forall t th, thr0 t = Some th -> kt_ph th = KFresh) ->
+  (forall f, In (FOp f) sched -> touches q f = false) ->
+  lookup (ks_store (kstepsf (KS s0 None thr0) sched)) q = lookup s0 q.
+Proof. exact frame_all_schedules. Qed.
+Print Assumptions C18_every_schedule_other_keys_untouched.
+
+(** ... and so have X.crt, X.key, X.json of a certificate that is not expired for the grace period of any of the cleaners
+    at any reading of their clocks, provided no other actor writes or deletes X.crt, the asset or a key above them --
+    whatever the cleaners and the others do elsewhere, in whatever order, whoever dies *)
+Theorem C18_every_schedule_live_assets_untouched : forall s0 base suf v c thr0,
+  site_assetb (base ++ spec_ext_crt) = true -> In suf asset_exts ->
+  lookup s0 (base ++ spec_ext_crt) = Some (File v c) ->
+  (forall t th0, thr0 t = Some th0 -> forall i, spec_expired (kt_clk th0 i) (grace (kt_opts th0)) c = false) ->
+  forall sched,
+  (forall t th, thr0 t = Some th -> kt_ph th = KFresh) ->
+  (forall f, In (FOp f) sched ->
+     covers (fkey f) (base ++ spec_ext_crt) = false /\ covers (fkey f) (base ++ suf) = false) ->
+  lookup (ks_store (kstepsf (KS s0 None thr0) sched)) (base ++ suf) = lookup s0 (base ++ suf).
+Proof. exact live_all_schedules. Qed.
+Print Assumptions C18_every_schedule_live_assets_untouched.
+
+(** ** who cleans, read from the source on every run: nothing inside the package calls CleanStorage (there is no
+    timer path in certmagic itself -- [Cache.maintainAssets] renews and staples only; the application, e.g. Caddy's
+    cleanStorageRegularly, decides when to clean, with which storage and context), CleanStorage is the only user of
+    deleteOldOCSPStaples and deleteExpiredCerts (so they always run under its storage_clean lock), and the only
+    mutating call sites are two Deletes in each helper and the one Store of the record *)
+Theorem C18_cleaning_only_through_CleanStorage :
+  clean_users_CleanStorage = [] /\
+  clean_users_deleteOldOCSPStaples = [spec_clean_storage_name] /\
+  clean_users_deleteExpiredCerts = [spec_clean_storage_name] /\
+  clean_sites_Delete = [0; 2; 2]%nat /\ clean_sites_Store = [1; 0; 0]%nat /\
+  clean_sites_acquireLock = [1; 0; 0]%nat /\ clean_sites_releaseLock = [1; 0; 0]%nat /\
+  clean_sites_Lock = [0; 0; 0]%nat /\ clean_sites_Unlock = [0; 0; 0]%nat.
+Proof. exact consts_callers_ok. Qed.
+Print Assumptions C18_cleaning_only_through_CleanStorage.
+
+(** the file back-end's Delete is os.RemoveAll of the key's path -- recursive, as [remove] / [removep] model it -- and
+    deleting a missing key is not an error *)
+Theorem C18_file_delete_is_recursive :
+  clean_fs_delete_fn = [111; 115; 46; 82; 101; 109; 111; 118; 101; 65; 108; 108]%N /\
+  clean_fs_delete_arg = [115; 46; 70; 105; 108; 101; 110; 97; 109; 101; 40; 107; 101; 121; 41]%N /\
+  clean_fs_delete_missing_ok = true.
+Proof. exact consts_fs_delete_ok. Qed.
+Print Assumptions C18_file_delete_is_recursive.
+
+(** ** a cleaner that is KILLED while it holds the storage_clean lock (its process dies when its call number n
+    begins; [cleank]: the resumption stops, nothing is released -- on FileStorage the lock file stays, goes stale
+    after 2 x lockFreshnessInterval and is removed by the next cleaner, C08_stale_recovers): the storage it leaves is
+    the storage the model [clean] leaves under the environment [with_kill e n] (all calls from number n on fail
+    without effect), and its calls are the first calls of that run. Hence every theorem above, each of which holds
+    for EVERY environment, describes what a killed cleaner leaves behind. *)
+Theorem C18_killed_cleaner_is_model : forall e n clk, kill_at e = None -> forall o s0,
+  sto (cleank e n o clk s0) = sto (snd (clean (with_kill e n) o clk s0)) /\
+  exists rest, lg (snd (clean (with_kill e n) o clk s0)) = rest ++ lg (cleank e n o clk s0).
+Proof. exact killed_is_model. Qed.
+Print Assumptions C18_killed_cleaner_is_model.
+
+(** ... and the cleaning that follows once the dead holder's lock has expired cleans that storage: after both,
+    every key other than last_clean.json has its initial value or is gone and justified for one of the two *)
+Theorem C18_killed_then_cleaned_safe : forall e1 n o1 clk1 e2 o2 clk2 s0 k,
+  kill_at e1 = None -> k <> spec_last_clean ->
+  let s1 := sto (cleank e1 n o1 clk1 s0) in
+  let s2 := sto (snd (clean e2 o2 clk2 s1)) in
+  file s2 k = file s0 k \/
+  (file s2 k = None /\
+   ((exists i, justified o1 (clk1 i) s0 k = true) \/ (exists i, justified o2 (clk2 i) s0 k = true))).
+Proof. exact killed_then_cleaned_safe. Qed.
+Print Assumptions C18_killed_then_cleaned_safe.
 
 (** ** the tie to the source text (translator, every run): the literals and comparison operators
     ([consts_ok]) and the control-flow shape ([consts_shape_ok]) that harness/cmd/consts/c18.go reads
@@ -364,7 +538,7 @@ Definition ex_store : store :=
     (s2k "acme/ca/users/u/u.key", File 13 plain);
     (s2k "locks/issue_cert_x.lock", File 14 plain);
     (s2k "last_clean.json", File 15 (Cls None None (Some (T - 2 * day, s2k "other")))) ].
-Definition ex_env : env := Env [] [] None true.
+Definition ex_env : env := Env [] [] None true [] None.
 Definition ex_opts : opts := Opts (1 * day) true true (30 * day) (s2k "me").
 
 (** what a cleaning does to it: the long-expired certificate's three assets and the two bad
@@ -578,8 +752,8 @@ Proof. vm_compute. repeat split; reflexivity. Qed.
     same; the Store of the record (call 11) writes it and CleanStorage reports the error -- the
     theorems above cover these runs (the only effects are still justified deletions and the record) *)
 Example ex_effect_then_error :
-  let e1 := Env [] [10%nat] None true in
-  let e2 := Env [] [11%nat] None true in
+  let e1 := Env [] [10%nat] None true [] None in
+  let e2 := Env [] [11%nat] None true [] None in
   lookup (sto (snd (clean e1 ex_opts0 (at_ T) ex_fs_store))) (s2k "certificates/iss/dead.example") = None /\
   fst (clean e1 ex_opts0 (at_ T) ex_fs_store) = RNil /\
   fst (clean e2 ex_opts0 (at_ T) ex_fs_store) = RErrStore /\
@@ -599,3 +773,169 @@ Proof.
   vm_compute. reflexivity.
 Qed.
 Print Assumptions C18_negative_grace_refuted.
+
+(** hypotheses of the effectiveness theorems for certificates are met by the example storage without the
+    malformed site (computable sufficient condition [crt_wfb] for [crt_wf]): the site folder of the long-expired
+    certificate is gone after the run *)
+Definition ex_opts_ni : opts := Opts 0 true true (30 * day) (s2k "me").
+Example ex_dead_folder_removed : forall k, covers (s2k "certificates/iss/dead.example") k = true ->
+  lookup (sto (snd (clean ex_env ex_opts_ni (at_ T) ex_store2))) k = None.
+Proof.
+  apply (C18_expired_site_folder_removed ex_env ex_opts_ni (at_ T) ex_store2 (s2k "certificates/iss")).
+  - repeat split.
+  - reflexivity.
+  - vm_compute. discriminate.
+  - apply crt_wfb_sound. vm_compute. reflexivity.
+  - intros v c. vm_compute. discriminate.
+  - exists (s2k "iss"). split; reflexivity.
+  - exists (s2k "dead.example"). split; reflexivity.
+  - intros v c. vm_compute. discriminate.
+  - intros v c. vm_compute. discriminate.
+  - intros k U Lk.
+    exists (s2k "certificates/iss/dead.example/dead.example.crt"), 3, (crt (T - 31 * day)).
+    destruct (lookup ex_store2 k) as [n|] eqn:L; [|congruence]. apply lookup_in in L.
+    vm_compute in L.
+    repeat (destruct L as [<-|L]; [first [discriminate U | idtac]|]); try contradiction.
+    + eexists. repeat split; [exists (s2k "dead.example.crt"); split; reflexivity | left; reflexivity | reflexivity].
+    + eexists. repeat split; [exists (s2k "dead.example.crt"); split; reflexivity | right; left; reflexivity | reflexivity].
+    + eexists. repeat split; [exists (s2k "dead.example.crt"); split; reflexivity | right; right; left; reflexivity | reflexivity].
+Qed.
+
+(** a Delete that takes effect in part (os.RemoveAll removes some of what the key covers, then fails): X.key is a
+    folder; the Delete of it (call 7 on this storage) removes inner/a.pem, leaves inner/b.pem and reports an error.
+    The run goes on (X.json is deleted), the site folder is not empty and stays; nothing else is touched.
+    All theorems above hold for such runs: [pfaults] is part of the environment they quantify over. *)
+Definition ex_keydir_store : store :=
+  [ (s2k "certificates/iss/dead.example/dead.example.crt", File 3 (crt (T - 31 * day)));
+    (s2k "certificates/iss/dead.example/dead.example.key/inner/a.pem", File 4 plain);
+    (s2k "certificates/iss/dead.example/dead.example.key/inner/b.pem", File 5 plain);
+    (s2k "certificates/iss/dead.example/dead.example.json", File 2 plain);
+    (s2k "acme/ca/users/u/u.key", File 13 plain) ].
+Example ex_partial_delete :
+  let e := Env [] [] None true [(7%nat, [s2k "certificates/iss/dead.example/dead.example.key/inner/b.pem"])] None in
+  map fst (sto (snd (clean e ex_opts_ni (at_ T) ex_keydir_store))) =
+  map s2k [ "last_clean.json"; "certificates/iss/dead.example/dead.example.key/inner/b.pem"; "acme/ca/users/u/u.key" ]%string
+  /\ fst (clean e ex_opts_ni (at_ T) ex_keydir_store) = RNil.
+Proof. vm_compute. split; reflexivity. Qed.
+
+(** a cleaner killed when its call number 12 begins (after Delete of X.crt, before Delete of X.key) leaves X.key and X.json
+    behind, holds the lock for ever, has issued 12 calls; the next cleaning removes nothing more of that site (X.crt
+    is gone, nothing says the orphans are expired) but everything it does is justified *)
+Example ex_killed :
+  map fst (sto (cleank ex_env 12 ex_opts_ni (at_ T) ex_store2)) =
+  map fst (sto (snd (clean (with_kill ex_env 12) ex_opts_ni (at_ T) ex_store2))) /\
+  List.length (lg (cleank ex_env 12 ex_opts_ni (at_ T) ex_store2)) = 12%nat /\
+  lookup (sto (cleank ex_env 12 ex_opts_ni (at_ T) ex_store2)) (s2k "certificates/iss/dead.example/dead.example.crt") = None /\
+  lookup (sto (cleank ex_env 12 ex_opts_ni (at_ T) ex_store2)) (s2k "certificates/iss/dead.example/dead.example.key") <> None /\
+  kill_at ex_env = None.
+Proof. vm_compute. split; [reflexivity|]. split; [reflexivity|]. split; [reflexivity|]. split; [discriminate | reflexivity]. Qed.
+
+(** a history with two cleaners and three other actors (a renewal into the dead site during the first cleaning, a
+    note file and the deletion of a staple between the cleanings, a new account during the second): the hypotheses
+    of the two history theorems are met for the account key and the live certificate, which survive *)
+Definition ex_history : list irun :=
+  [ IRun ex_env [(10%nat, FPut ex_renewed (File 77 (crt (T + 90 * day))))] ex_opts0 (at_ T) [];
+    IRun ex_env [(3%nat, FPut (s2k "acme/ca/users/new/new.key") (File 78 plain))] ex_opts_ni (ticking T)
+         [FPut (s2k "certificates/iss/dead.example/note.txt") (File 79 plain); FDel (s2k "ocsp/a-stale")] ].
+Example ex_history_hyps :
+  let k := s2k "acme/ca/users/u/u.key" in
+  let base := s2k "certificates/iss/live.example/live.example" in
+  (forall r, In r ex_history -> (forall i f, In (i, f) (ir_fs r) -> touches k f = false) /\
+                                (forall f, In f (ir_pre r) -> touches k f = false)) /\
+  lookup (cleani_seq ex_history ex_fs_store2) k = Some (File 13 plain) /\
+  lookup (cleani_seq ex_history ex_fs_store2) (base ++ spec_ext_key) = Some (File 31 plain) /\
+  lookup (cleani_seq ex_history ex_fs_store2) (s2k "acme/ca/users/new/new.key") = Some (File 78 plain).
+Proof.
+  split.
+  - intros r [<-|[<-|[]]]; split.
+    + intros i f [E|[]]. injection E; intros <- _. reflexivity.
+    + intros f [].
+    + intros i f [E|[]]. injection E; intros <- _. reflexivity.
+    + intros f [<-|[<-|[]]]; reflexivity.
+  - vm_compute. repeat split; reflexivity.
+Qed.
+
+(** three cleaners; the first dies after 20 steps (X.crt of the dead site deleted, X.key / X.json not), the others wait;
+    its lock expires; the second cleans what it finds and records, then the third (no interval) *)
+Definition ex_kthr0 : nat -> option kthr :=
+  fun t => if (t <? 3)%nat then Some (KThr ex_env ex_opts_ni (at_ T) KFresh []) else None.
+Definition ex_ksched : list klabel :=
+  List.repeat (LStep 0%nat) 20 ++ [LStep 1%nat; LStep 2%nat; LKill 0%nat; LStep 1%nat; LStep 0%nat; LExpire] ++
+  List.concat (List.repeat [LStep 1%nat; LStep 2%nat] 90).
+Example ex_kinit : kinit_ok ex_kthr0.
+Proof.
+  intros t th. unfold ex_kthr0. destruct (t <? 3)%nat; [|discriminate]. intros H.
+  assert (E : th = KThr ex_env ex_opts_ni (at_ T) KFresh []) by congruence. rewrite E. repeat split.
+Qed.
+Example ex_kill_schedule :
+  let c := ksteps (KS ex_store2 None ex_kthr0) ex_ksched in
+  ks_holder c = None /\
+  lookup (ks_store c) (s2k "certificates/iss/dead.example/dead.example.crt") = None /\
+  lookup (ks_store c) (s2k "certificates/iss/dead.example/dead.example.key") <> None /\
+  lookup (ks_store c) (s2k "ocsp/a-stale") = None /\
+  lookup (ks_store c) (s2k "certificates/iss/live.example/live.example.key") <> None /\
+  match ks_thr c 0%nat with Some th => match kt_ph th with KDead => true | _ => false end | None => false end = true /\
+  match ks_thr c 1%nat with Some th => match kt_ph th with KFinished RNil => true | _ => false end | None => false end = true.
+Proof. vm_compute. split; [reflexivity|]. split; [reflexivity|]. split; [discriminate|]. split; [reflexivity|]. split; [discriminate|]. split; reflexivity. Qed.
+
+(** a schedule with everything: three cleaners, a renewal into the dead site and a new account by other actors while the
+    first cleaner works, the first cleaner killed, its lock expiring, the others cleaning: the account key of the
+    beginning and the live certificate's key file are where they were (hypotheses of the two every-schedule theorems) *)
+Definition ex_fsched : list flabel :=
+  map FL (List.repeat (LStep 0%nat) 15) ++
+  [FOp (FPut ex_renewed (File 77 (crt (T + 90 * day)))); FOp (FPut (s2k "acme/ca/users/new/new.key") (File 78 plain))] ++
+  map FL (List.repeat (LStep 0%nat) 5 ++ [LStep 1%nat; LKill 0%nat; LStep 2%nat; LExpire]) ++
+  map FL (List.concat (List.repeat [LStep 1%nat; LStep 2%nat] 90)).
+Example ex_every_schedule_hyps :
+  let q := s2k "acme/ca/users/u/u.key" in
+  let base := s2k "certificates/iss/live.example/live.example" in
+  (forall f, In (FOp f) ex_fsched -> touches q f = false) /\
+  (forall f, In (FOp f) ex_fsched ->
+     covers (fkey f) (base ++ spec_ext_crt) = false /\ covers (fkey f) (base ++ spec_ext_key) = false) /\
+  (forall t th0, ex_kthr0 t = Some th0 -> forall i, spec_expired (kt_clk th0 i) (grace (kt_opts th0)) (crt (T + 30 * day)) = false) /\
+  lookup (ks_store (kstepsf (KS ex_store2 None ex_kthr0) ex_fsched)) q = lookup ex_store2 q /\
+  lookup (ks_store (kstepsf (KS ex_store2 None ex_kthr0) ex_fsched)) (base ++ spec_ext_key) = lookup ex_store2 (base ++ spec_ext_key) /\
+  lookup ex_store2 (base ++ spec_ext_key) <> None /\
+  ks_holder (kstepsf (KS ex_store2 None ex_kthr0) ex_fsched) = None.
+Proof.
+  assert (Ops : forall f, In (FOp f) ex_fsched ->
+            f = FPut ex_renewed (File 77 (crt (T + 90 * day))) \/ f = FPut (s2k "acme/ca/users/new/new.key") (File 78 plain)).
+  { intros f H. unfold ex_fsched in H. repeat (apply in_app_or in H; destruct H as [H|H]);
+      try (apply in_map_iff in H; destruct H as [l [E _]]; discriminate).
+    destruct H as [E|[E|[]]]; injection E; auto. }
+  split; [intros f H; destruct (Ops f H) as [->| ->]; reflexivity|].
+  split; [intros f H; destruct (Ops f H) as [->| ->]; split; reflexivity|].
+  split.
+  - intros t th0. unfold ex_kthr0. destruct (t <? 3)%nat; [|discriminate]. intros H.
+    assert (E : th0 = KThr ex_env ex_opts_ni (at_ T) KFresh []) by congruence. rewrite E. intros i. reflexivity.
+  - vm_compute. split; [reflexivity|]. split; [reflexivity|]. split; [discriminate | reflexivity].
+Qed.
+
+(** the hypotheses of C18_expired_cert_assets_removed on the same storage: X.key of the long-expired certificate is gone *)
+Example ex_dead_assets_removed :
+  lookup (sto (snd (clean ex_env ex_opts_ni (at_ T) ex_store2))) (s2k "certificates/iss/dead.example/dead.example.key") = None.
+Proof.
+  apply (C18_expired_cert_assets_removed ex_env ex_opts_ni (at_ T) ex_store2 (s2k "certificates/iss")
+           (s2k "certificates/iss/dead.example") (s2k "certificates/iss/dead.example/dead.example.crt") 3 (crt (T - 31 * day)))
+    with (x := s2k "certificates/iss/dead.example/dead.example.key").
+  - repeat split.
+  - reflexivity.
+  - vm_compute. discriminate.
+  - apply crt_wfb_sound. vm_compute. reflexivity.
+  - intros v c. vm_compute. discriminate.
+  - exists (s2k "iss"). split; reflexivity.
+  - exists (s2k "dead.example"). split; reflexivity.
+  - intros v c. vm_compute. discriminate.
+  - intros v c. vm_compute. discriminate.
+  - exists (s2k "dead.example.crt"). split; reflexivity.
+  - reflexivity.
+  - reflexivity.
+  - intros i. reflexivity.
+  - right; left; reflexivity.
+  - vm_compute. reflexivity.
+Qed.
+(** C18_expired_is_past_not_after on a certificate with NotAfter in the middle of a second *)
+Example ex_past_not_after :
+  let c := crt (T - 30 * day + 500000000) in
+  spec_expired T (30 * day) c = false /\ spec_expired (T + second) (30 * day) c = true.
+Proof. vm_compute. split; reflexivity. Qed.
